@@ -23,6 +23,21 @@ def hSdl : Handler := handler fun args =>
     | none => pure (.list [.sym "raised"])
   | _ => none
 
+/-- `(sdl-stats (seq…) mode n)` ↦ `(ok iterations stepbacks)` | `(raised)` -/
+def hSdlStats : Handler := handler fun args =>
+  match args with
+  | [seq, .sym mode, n] => do
+    let seq ← seq.toNats?
+    let n ← n.toNat?
+    let m ← match mode with
+      | "npartitions" => some (SDL.Mode.npartitions n)
+      | "chunksize" => some (SDL.Mode.chunksize n)
+      | _ => none
+    match SDL.sdlStats seq m with
+    | some (it, b) => pure (.list [.sym "ok", SExp.ofNats [it, b]])
+    | none => pure (.list [.sym "raised"])
+  | _ => none
+
 /-! ## C44 / C41: repartition -/
 def okOr (r : Option SExp) : SExp := match r with | some e => .list [.sym "ok", e] | none => .list [.sym "raised"]
 
@@ -231,7 +246,7 @@ def hCsvParts : Handler := handler fun args =>
     pure (okOr (r.map fun parts => .list (parts.map SExp.ofNatss)))
   | _ => none
 
-def table : List (String × Handler) := [("sdl", hSdl), ("groupby", hGroupby), ("csv-parts", hCsvParts), ("join", hJoin), ("hash-join", hHashJoin),
+def table : List (String × Handler) := [("sdl", hSdl), ("sdl-stats", hSdlStats), ("groupby", hGroupby), ("csv-parts", hCsvParts), ("join", hJoin), ("hash-join", hHashJoin),
   ("stage-index", hStageIndex), ("simple-shuffle", hSimpleShuffle), ("task-shuffle", hTaskShuffle),
   ("layer-wiring", hLayerWiring), ("set-partitions-pre", hSetPartitionsPre),
   ("truthful", hTruthful), ("locslice-divs", hLocSliceDivs), ("partitions-divs", hPartitionsDivs),
